@@ -47,6 +47,13 @@ class Scn:
         self.ops.append(o)
         return self
 
+    def expect_exec(self, base=None, kind=None, n=1, since=None, ms=1500):
+        """like await_exec, but a launch that does not come within ms is recorded (Missing: unexplainable) instead of hanging"""
+        self.await_exec(base=base, kind=kind, n=n, since=since)
+        self.ops[-1]["op"] = "expect"
+        self.ops[-1]["ms"] = ms
+        return self
+
     def sleep(self, ms):
         return self.op(op="sleep", ms=ms)
 
